@@ -8,6 +8,14 @@
 // thread calls join() while producers are running, acts as balancer (signals
 // once more after refusals, as the header documents) and does the final
 // signal_push_event() + join().
+//
+// Known finding on the unmodified tree (class lost, site join-head-of-line):
+// join() can return while items whose execute() already returned are still
+// unconsumed. A producer P1 that found the queue full holds ticket k and sleeps
+// in its 1 ms slot poll; the consumer drains and exits; P2 publishes tickets
+// k+1.. and launches a consumer, whose empty poll only looks at slot k
+// (unpublished) and exits with the event counter reset to 0; join() sees 0.
+// The items are consumed later, when P1 publishes and relaunches.
 #include <babylon/concurrent/execution_queue.h>
 #include <babylon/executor.h>
 
